@@ -127,6 +127,17 @@ func makeArray(t reflect.Type, n int) array {
 	return array{elem: elem, size: size, len: n}
 }
 
+func growArray(t reflect.Type, a array, n int) array {
+	b := makeArray(t, n)
+	if a.len > 0 {
+		typ := reflect.SliceOf(t)
+		dst := reflect.NewAt(typ, unsafe.Pointer(&slice{ptr: b.elem, len: b.len, cap: b.len})).Elem()
+		src := reflect.NewAt(typ, unsafe.Pointer(&slice{ptr: a.elem, len: a.len, cap: a.len})).Elem()
+		reflect.Copy(dst, src)
+	}
+	return b
+}
+
 func (a array) index(i int) value {
 	return value{ptr: unsafe.Pointer(uintptr(a.elem) + (uintptr(i) * a.size))}
 }
